@@ -355,11 +355,18 @@ def run(chk, b, tier):
     mm = G.Model()
     for i in range(nmany):
         mm.refs["refs/%s/n%05d" % (["heads", "tags", "remotes/o", "misc"][i % 4], i)] = c0
+    # the references that git lists first and last are the only ones that reach their commits
+    cz = G.Commit(G.Tree([G.Entry(G.FILE, b"last", G.Blob(b"only the last reference reaches this\n"))]), [c0], msg=b"last\n")
+    ca = G.Commit(G.Tree([G.Entry(G.FILE, b"first", G.Blob(b"only the first reference reaches this\n"))]), [c0], msg=b"first\n")
+    mm.refs["refs/zzz/last"] = cz
+    mm.refs["refs/aaa/first"] = ca
     gmany = G.write_model(mm, os.path.join(scratch, "many"), packed_refs=True)
-    for k in range(6 if tier == "quick" else 20):
-        seq = [[], [["--no-tags"]], [["--include", "refs/heads"], ["--exclude", "/refs/heads/n000.*/"]]][k % 3]
+    for k in range(8 if tier == "quick" else 30):
+        seq = [[], [["--no-tags"]], [["--include", "refs/heads"], ["--exclude", "/refs/heads/n000.*/"]], []][k % 4]
         argv = ["--json", "--no-progress", "--show-refs"] + [a for o in seq for a in o]
-        r = R.sizer(sz, gmany, argv, env={"GOMAXPROCS": ["1", "2", "4", "16"][k % 4]}, tmpdir=tmp, timeout=300)
+        # half of the runs write their reference listing to a reader that takes it in small pieces with pauses
+        slow = [None, (4096, 2), None, (512, 1), None, (65536, 20), None, (4096, 0.2)][k % 8]
+        r = R.sizer(sz, gmany, argv, env={"GOMAXPROCS": ["1", "2", "4", "16"][k % 4]}, tmpdir=tmp, timeout=300, slow_stderr=slow)
         chk.count()
         if r.rc != 0:
             chk.violation("C06/cli/run-failed/many-references", {"argv": argv, "stderr": r.err[-300:]})
@@ -377,7 +384,12 @@ def run(chk, b, tier):
             chk.violation("C06/cli/mark-mismatch/many-references", {"argv": argv, "refs": bad[:5]})
         js, _ = P.parse_json(r.out)
         if js and js.get("reference_count") != len(mm.refs):
-            chk.violation("C06/cli/many-references/reference_count", {"got": js.get("reference_count")})
+            chk.violation("C06/cli/many-references/reference_count", {"got": js.get("reference_count"), "want": len(mm.refs), "argv": argv,
+                                                                     "slow_stderr_reader": slow})
+        want_commits = 1 + sum(1 for n in ("refs/zzz/last", "refs/aaa/first") if S.selected(rules, 0, n, forest0))
+        if js and js.get("unique_commit_count") != want_commits:
+            chk.violation("C06/cli/many-references/selected-reference-not-walked", {"unique_commit_count": js.get("unique_commit_count"),
+                                                                                    "want": want_commits, "argv": argv, "slow_stderr_reader": slow})
         chk.nontrivial(("many", k))
     chk.cov["many_references_runs"] = {"references": nmany}
     # API level: the match relation
